@@ -9,6 +9,17 @@ from ..core.astutil import src, call_name, walk_no_nested, short
 
 FLAG = "self.open_span"
 MAX_PATHS = 2000
+_CTX = []         # stack of FunctionInfo being walked: tests are normalised through resolve_local
+
+
+def _norm(test):
+    if _CTX:
+        from ..core.astutil import resolve_local
+        try:
+            return src(resolve_local(_CTX[-1], test))
+        except Exception:
+            return src(test)
+    return src(test)
 
 
 def _leaf_tests(test):
@@ -38,7 +49,7 @@ def _leaf_tests(test):
     if isinstance(test, ast.UnaryOp) and isinstance(test.op, ast.Not):
         t, f = _leaf_tests(test.operand)
         return f, t
-    txt = src(test)
+    txt = _norm(test)
     return [[("test", txt, True)]], [[("test", txt, False)]]
 
 
@@ -108,7 +119,8 @@ def _stmt(st, inline, depth):
             raise AnalysisError(f"typestate: {FLAG} assigned a non-constant")
         val = st.value
         alts = _expr_alts(val, inline, depth)
-        return [(a, False) for a in alts]
+        kill = [("assign", src(tgt))] if tgt is not None else []
+        return [(a + kill, False) for a in alts]
     if isinstance(st, ast.Pass):
         return [([], False)]
     if isinstance(st, ast.Raise):
@@ -132,7 +144,11 @@ def _expr_alts(expr, inline, depth):
         if len(calls) > 1 or depth > 3:
             raise AnalysisError("typestate: nested span-routine calls")
         fn = inline[call_name(calls[0])]
-        sub = paths_of(fn.node.body, inline, depth + 1)
+        _CTX.append(fn)
+        try:
+            sub = paths_of(fn.node.body, inline, depth + 1)
+        finally:
+            _CTX.pop()
         return [its for its, _ in sub]
     return [[("emit", t) for t in _emissions(expr)]]
 
@@ -140,17 +156,35 @@ def _expr_alts(expr, inline, depth):
 def span_table(ctx, fn, inline=None):
     """{(entry flag, start, markup): set of (tokens tuple, exit flag)}"""
     inline = inline or {}
-    paths = paths_of(fn.node.body, inline)
+    _CTX.append(fn)
+    try:
+        paths = paths_of(fn.node.body, inline)
+    finally:
+        _CTX.pop()
     table = {}
-    startname = None
+    import re as _re
     for items, _ in paths:
+        # a path is feasible only if repeated tests of the same expression agree (no assignment to
+        # a name of the expression in between)
+        known, consistent = {}, True
         start = markup = None
         for it in items:
-            if it[0] == "test":
+            if it[0] == "assign":
+                for k in list(known):
+                    if _re.search(r"(?<![\w.])" + _re.escape(it[1]) + r"(?![\w])", k):
+                        del known[k]
+            elif it[0] == "test" and it[1] != FLAG:
+                if it[1] in known and known[it[1]] != it[2]:
+                    consistent = False
+                    break
+                known[it[1]] = it[2]
                 if it[1].endswith(".start") and "." in it[1]:
                     start = it[2] if start is None else start
-                elif it[1] in ("styles", "style or klass", "style", "klass") or it[1].startswith("style"):
+                else:
+                    # any other tested value decides whether there is markup to write
                     markup = (markup or False) or it[2]
+        if not consistent:
+            continue
         for flag in (0, 1):
             cur = flag
             toks = []
